@@ -20,9 +20,14 @@ def _alarm(signum, frame):
 
 
 def guarded(fn, seconds=10):
-    """Run fn() under a wall-clock limit.  Returns (value, exc_name)."""
+    """Run fn() under a limit of `seconds` of CPU time of this process (ITIMER_VIRTUAL: a library call
+    that loops burns CPU and is stopped; a starved process on a loaded machine is NOT mistaken for a
+    hanging call), with a generous wall-clock limit (20x) as a fallback for blocking calls.
+    Returns (value, exc_name)."""
+    signal.signal(signal.SIGVTALRM, _alarm)
     signal.signal(signal.SIGALRM, _alarm)
-    signal.setitimer(signal.ITIMER_REAL, seconds)
+    signal.setitimer(signal.ITIMER_VIRTUAL, seconds)
+    signal.setitimer(signal.ITIMER_REAL, seconds * 20)
     try:
         return fn(), "none"
     except CallTimeout:
@@ -32,6 +37,7 @@ def guarded(fn, seconds=10):
     except Exception as e:  # noqa
         return None, type(e).__name__
     finally:
+        signal.setitimer(signal.ITIMER_VIRTUAL, 0)
         signal.setitimer(signal.ITIMER_REAL, 0)
 
 
